@@ -37,10 +37,14 @@ Theorem C07_upgrade : forall n p s0 m s1 t v s2,
 Proof. exact upgrade_exclusive. Qed.
 Print Assumptions C07_upgrade.
 
-(** once obsolete: nothing changes any more, no section opens, every open
-    section fails its next check, no upgrade succeeds *)
+(** once obsolete: the word stays obsolete and nobody holds or acquires the
+    guard any more, no section opens, every open section fails its next check,
+    no upgrade succeeds.  (The fields of an obsolete node may still be stored
+    to -- the implementation finishes unlinking a replaced node after
+    write_unlock_and_obsolete -- but by C07_obsolete_rejects no reader can
+    open or validate a section on it, so those stores are never observed.) *)
 Theorem C07_obsolete_final : forall n p s0 m s1,
-  lrun (linit n) p = Some s0 -> lw s0 = 1 -> lrun s0 m = Some s1 -> s1 = s0.
+  lrun (linit n) p = Some s0 -> lw s0 = 1 -> lrun s0 m = Some s1 -> lw s1 = 1 /\ guards s1 = [].
 Proof. exact obsolete_final. Qed.
 Print Assumptions C07_obsolete_final.
 
@@ -50,8 +54,8 @@ Theorem C07_obsolete_rejects : forall n p s0 e s1,
   | ERLock _ obs => rlock_opens obs = false /\ rlock_fails obs = true
   | ECheck _ v obs => w_is_free v = true -> check_ok v obs = false
   | EUpgrade _ _ ok => ok = false
-  | EWUnlock _ _ | EWObsolete _ | EStore _ _ _ => False
-  | ELoad _ _ _ | ESpin _ => True
+  | EWUnlock _ _ | EWObsolete _ => False
+  | EStore _ _ _ | ELoad _ _ _ | ESpin _ => True
   end.
 Proof. exact obsolete_rejects. Qed.
 Print Assumptions C07_obsolete_rejects.
